@@ -1,8 +1,8 @@
-SPECIFICATION FairSpec
+SPECIFICATION SSpec
 CONSTANTS
-  Gpus = {1, 2, 3}
+  Gpus = {0, 1, 2, 3}
   Comps = {1, 2}
-  PortCap = 2
+  PortCap = 1
   Span = 4
   Ileave = 2
   NBanks = 2
@@ -10,6 +10,6 @@ CONSTANTS
   RspData <- MCRspData
   MaxReq = 1
   MaxDrain = 2
-  Deviations = {}
-PROPERTIES Progress DrainProgress
+  Deviations = {"StaleDrainAck"}
+INVARIANTS DrainAckOnlyWhenEmpty
 CHECK_DEADLOCK FALSE
